@@ -62,6 +62,9 @@ type World struct {
 	// Wants reports whether the property being decided keeps obligations of a
 	// rule (expensive rules are skipped when nobody keeps them)
 	Wants func(rule string) bool
+	// lenExact[k]: every R17.len obligation of package k holds (the bytes Vector
+	// appends number exactly what the sizing function returns)
+	lenExact map[string]bool
 }
 
 var pkgKeys = []string{"20", "30", "31", "40"}
